@@ -36,6 +36,12 @@ impl Rng {
         if v.is_empty() { None } else { Some(&v[self.below(v.len())]) }
     }
     /// weighted choice: returns index
+    pub fn shuffle<T>(&mut self, v: &mut [T]) {
+        for i in (1..v.len()).rev() {
+            let j = self.below(i + 1);
+            v.swap(i, j);
+        }
+    }
     pub fn weighted(&mut self, w: &[u32]) -> usize {
         let tot: u64 = w.iter().map(|x| *x as u64).sum();
         if tot == 0 {
